@@ -3,21 +3,43 @@
 //! Only compiled with the `verif-hooks` cargo feature. With the feature on and no callback
 //! installed, a hook point is a lock-free read and a branch. No behaviour of Kvarn depends on it.
 
+use std::sync::atomic::{AtomicBool, Ordering};
 use std::sync::{Arc, RwLock};
 
 /// The callback type: the name of the hook point and a context value (e.g. a port).
 pub type Callback = dyn Fn(&'static str, u64) + Send + Sync;
 
 static CALLBACK: RwLock<Option<Arc<Callback>>> = RwLock::new(None);
+/// Whether a callback is installed. Read with `Relaxed` so that a hook point without a callback
+/// doesn't synchronise threads (which would hide data races from tools looking for them).
+static INSTALLED: AtomicBool = AtomicBool::new(false);
 
 /// Installs (or removes) the process-global callback called at every hook point.
 pub fn set_callback(callback: Option<Arc<Callback>>) {
+    let installed = callback.is_some();
     *CALLBACK.write().unwrap() = callback;
+    INSTALLED.store(installed, Ordering::SeqCst);
 }
 /// A hook point. Calls the installed callback, if any.
 pub fn point(name: &'static str, ctx: u64) {
+    if !INSTALLED.load(Ordering::Relaxed) {
+        return;
+    }
     let callback = CALLBACK.read().unwrap().clone();
     if let Some(callback) = callback {
         callback(name, ctx);
     }
+}
+
+/// A [`CompressedResponse`](crate::comprash::CompressedResponse) with all compression allowed, as
+/// the response cache stores them, for harnesses that exercise the lazily compressed bodies directly.
+pub fn compressed_response(
+    response: crate::prelude::Response<crate::prelude::Bytes>,
+) -> crate::comprash::CompressedResponse {
+    crate::comprash::CompressedResponse::new(
+        response,
+        crate::comprash::CompressPreference::Full,
+        crate::comprash::ClientCachePreference::None,
+        "html",
+    )
 }
